@@ -248,6 +248,9 @@ class MPluck(MNode):
     op = 'pluck'
 
     def update(self, x, who, md):
+        if self.spec.get('pick_tuple'):
+            self.emit(x[tuple(self.spec['pick_tuple'])], md)
+            return
         p = self.spec['pick']
         if isinstance(p, list):
             self.emit(tuple(x[i] for i in p), md)
